@@ -27,7 +27,11 @@ MANIFEST = dict(
          "xmp_seek_time selects the greatest candidate order; restart re-enters the first pattern of the sequence with loop count 0 and no pending delay/break/jump/loop for every pre-state incl. mid pattern delay (C17_restart; on jump-free generated modules the harness also renders the next pass and compares its length with the reported duration); stop ends; "
          "a player (re)start inside a history (xmp_end_player + xmp_start_player, or xmp_start_player on the playing context, with another "
          "sub-song selected) re-establishes sequence 0 and the relative / time calls that follow act in sequence 0 (C17_start_player, "
-         "C17_next_after_start, C17_seek_after_start). "
+         "C17_next_after_start, C17_seek_after_start); xmp_set_player(CFLAGS) re-runs the scan exactly when the VBLANK bit of the current "
+         "module's flags changes, FLAGS never, MODE always, none of them moves the player (C17_set_cflags, C17_set_flags, C17_set_mode, "
+         "C17_cflags_roundtrip_rescans) - the harness counts the real rescans, follows the re-scanned tables, and on generated straight-line "
+         "modules with Fxx on both sides of 0x20 measures the real order-entry times of the timing mode in force and judges the table and "
+         "xmp_seek_time against them. "
          "Model tied to the C on every run by a differential correspondence on the full sequencer state (return value, post-call state, state right "
          "after the reposition block, kernel fields and xmp_frame_info after the frame), a direct oracle on xmp_frame_info over corpus and "
          "generated modules, and the Lean witnesses replayed on the real library.",
@@ -46,7 +50,7 @@ REQUIRED = ["Xmp.Control." + n for n in (
     "C17_refuse_position", "C17_refuse_row", "C17_set_row", "C17_next_inside", "C17_next_one_order", "C17_next_stays",
     "C17_prev_inside", "C17_prev_entry", "C17_prev_stays", "C17_marker_skipping_terminates", "C17_seek_time",
     "C17_seek_time_fallback", "C17_restart", "C17_stop", "C17_start_player", "C17_next_after_start",
-    "C17_seek_after_start")] + [
+    "C17_seek_after_start", "C17_set_cflags", "C17_set_flags", "C17_cflags_roundtrip_rescans", "C17_set_mode")] + [
     "Xmp.Control.startSkip_exit", "Xmp.Control.xmpStartPlayer_eq",
     "Xmp.Control.setPosition_isSome", "Xmp.Control.skipMarkers_isSome", "Xmp.Control.skipInvalid_exit",
     "Xmp.Control.nextOrderLoop_skip"]
@@ -141,20 +145,50 @@ def gen_interleaved(rng, path):
 
 
 def gen_linear(rng, path):
-    """Straight playback only (file name lin*): no jump, break, loop or tempo effect, many pattern
-    delays.  One pass lasts exactly the scanned duration, which the harness checks after restarts."""
+    """Straight playback only (file name lin*): no jump, break or loop; many pattern delays and Fxx
+    effects on both sides of 0x20 (speed in VBlank timing, tempo in CIA timing).  One pass lasts exactly
+    the scanned duration and enters every order at the scanned time of the timing mode in force, which
+    the harness measures after restarts and after xmp_set_player(FLAGS/CFLAGS/MODE)."""
     npat = rng.randint(1, 3)
-    ln = rng.randint(1, 4)
+    ln = rng.randint(2, 4)
     chn = rng.randint(1, 3)
-    rows = [rng.choice([4, 8, 16, 32]) for _ in range(npat)]
+    rows = [rng.choice([4, 8]) for _ in range(npat)]
     with open(path, "w") as f:
-        f.write("H %d %d %d 0 0 %d 0 %d 125\n" % (chn, npat, ln, int(rng.random() < 0.5), rng.choice([1, 2, 3, 6])))
+        f.write("H %d %d %d 0 0 %d 0 %d 125\n" % (chn, npat, ln, int(rng.random() < 0.5), rng.choice([2, 3, 6])))
         f.write("O " + " ".join(str(rng.randrange(npat)) for _ in range(ln)) + "\n")
         f.write("R " + " ".join(map(str, rows)) + "\n")
         for p in range(npat):
             for row in range(rows[p]):
-                if rng.random() < 0.4:
-                    f.write("E %d %d %d 0 0 14 %d 0 0\n" % (p, row, rng.randrange(chn), 0xe0 | rng.randint(1, 15)))
+                r = rng.random()
+                if r < 0.3:
+                    f.write("E %d %d %d 0 0 14 %d 0 0\n" % (p, row, rng.randrange(chn), 0xe0 | rng.randint(1, 6)))
+                elif r < 0.5:
+                    f.write("E %d %d %d 0 0 15 %d 0 0\n" % (p, row, rng.randrange(chn), rng.choice([2, 3, 6, 0x20, 0x28, 0x30, 0x40, 0x7d])))
+    return path
+
+
+def gen_bigpat(rng, path):
+    """A non-marker format with 256 patterns (XM allows that many) whose order list uses the pattern
+    numbers 0xfe and 0xff as REAL patterns, next to ordinary ones."""
+    npat = 256
+    chn = rng.randint(1, 2)
+    ln = rng.randint(3, 10)
+    pool = [0xfe, 0xff, 0xfd, 0, 1, 2, 3, 0x80]
+    orders = [rng.choice(pool) for _ in range(ln)]
+    orders[rng.randrange(1, ln)] = 0xfe
+    if rng.random() < 0.7:
+        orders[rng.randrange(ln)] = 0xff
+    rows = [rng.choice([2, 4, 8]) for _ in range(npat)]
+    with open(path, "w") as f:
+        f.write("H %d %d %d 0 0 %d %d %d 125\n" % (chn, npat, ln, int(rng.random() < 0.3), int(rng.random() < 0.3), rng.choice([1, 2, 3])))
+        f.write("O " + " ".join(map(str, orders)) + "\n")
+        f.write("R " + " ".join(map(str, rows)) + "\n")
+        for p in set(orders):
+            if rng.random() < 0.3:
+                f.write("E %d %d 0 0 0 14 %d 0 0\n" % (p, rng.randrange(rows[p]), 0xe0 | rng.randint(1, 3)))
+        if rng.random() < 0.5:      # two sub-songs
+            k = rng.randrange(1, ln)
+            f.write("E %d %d 0 0 0 11 %d 0 0\n" % (orders[k - 1], rows[orders[k - 1]] - 1, 0))
     return path
 
 
@@ -221,19 +255,23 @@ def parse(out):
         w = line.split(" ", 1)
         t = w[0]
         if t == "file":
+            case = None
             cur = {"file": w[1], "head": [], "cases": [], "steps": []}
             mods.append(cur)
             steps = cur["steps"]
         elif cur is None:
             continue
         elif t in ("mod", "xxo", "rows", "ctl", "seq", "info"):
-            cur["head"].append(line)
+            if case is not None and "post" in case and "frame" not in case:
+                case.setdefault("newhead", []).append(line)     # module description after a rescan
+            else:
+                cur["head"].append(line)
         elif t == "s":
             steps.append(w[1])
         elif t == "case":
             case = {"n": int(w[1]), "nsteps": len(steps)}
             cur["cases"].append(case)
-        elif t in ("pre", "op", "ret", "post", "frame"):
+        elif t in ("pre", "op", "ret", "post", "frame", "rescan"):
             if case is not None:
                 case[t] = w[1] if len(w) > 1 else ""
                 if t == "op":
@@ -296,7 +334,7 @@ def run(ck):
     def one(i):
         if i % 12 == 5:
             return gen_linear(ck.rng, os.path.join(sdir, "lin%04d.synth" % i))
-        gen = gen_subsongs if i % 3 == 0 else gen_interleaved if i % 6 == 1 else gen_synth
+        gen = gen_subsongs if i % 3 == 0 else gen_interleaved if i % 6 == 1 else gen_bigpat if i % 12 == 2 else gen_synth
         return gen(ck.rng, os.path.join(sdir, "s%04d.synth" % i))
     for old in os.listdir(sdir):
         os.unlink(os.path.join(sdir, old))
@@ -383,13 +421,18 @@ def evaluate(ck, exe, results):
         for md in mods:
             text += md["head"]
             for c in md["cases"]:
-                if "op" in c:
-                    text += ["pre " + c["pre"], "op " + c["op"]]
+                if "frame" in c:
+                    rs = c.get("rescan", "").split(" ")
+                    text += ["pre " + c["pre"], "op " + c["op"] + (" %s %s" % (rs[1], rs[2]) if len(rs) == 3 else "")]
+                    text += c.get("newhead", []) + ["frame"]
         mo = vlib.run_driver("drv_c17", "\n".join(text) + "\n") if getattr(ck, "lean_ok", False) else None
         mi = 0
         for md in mods:
             bump("modules")
-            for b in wf_monitor(md["head"]):
+            heads = [md["head"]] + [c["newhead"] for c in md["cases"] if len(c.get("newhead", [])) == 6]
+            if len(heads) > 1:
+                bump("rescans_followed", len(heads) - 1)
+            for b in [x for hd in heads for x in wf_monitor(hd)]:
                 ck.violation("scan-invariant:" + re.sub(r"\d+", "N", b)[:50],
                              {"module": md["file"], "module_text": module_text(md["file"])},
                              "scan invariant assumed by the C17 theorems fails on %s: %s" % (md["file"], b))
@@ -445,18 +488,25 @@ def evaluate(ck, exe, results):
                                        "case": {k: c[k] for k in ("pre", "op", "ret", "post", "frame")}, "oracle": orc},
                                  "position control: " + orc[5:])
                 if mo is not None:
-                    # model answers: ret/post/frame or a single hang line
-                    if mi < len(mo) and mo[mi].startswith("hang"):
-                        got = {"hang": mo[mi]}
+                    # model answers for this case: [ret, post, [rescan]] then one frame / "hang frame" line
+                    got = {}
+                    while mi < len(mo):
+                        l = mo[mi]
                         mi += 1
-                    else:
-                        got = {}
-                        for k in ("ret", "post", "frame"):
-                            if mi < len(mo) and (mo[mi].startswith(k + " ") or mo[mi].startswith("hang")):
-                                got[k] = mo[mi].split(" ", 1)[1] if not mo[mi].startswith("hang") else "hang"
-                                mi += 1
-                                if got[k] == "hang":
-                                    break
+                        k, _, v = l.partition(" ")
+                        if k == "hang":
+                            got.setdefault("ret", "hang")
+                            if v == "frame":
+                                got.setdefault("frame", "hang")
+                                break
+                        else:
+                            got[k] = v
+                            if k == "frame":
+                                break
+                    if "rescan" in c:
+                        bump("param_rescan" if c["rescan"].startswith("1") else "param_no_rescan")
+                        if got.get("rescan") != c["rescan"].split(" ")[0]:
+                            got["ret"] = "%s (model rescan=%s, real rescan=%s)" % (got.get("ret"), got.get("rescan"), c["rescan"].split(" ")[0])
                     diff = [k for k in ("ret", "post", "frame") if got.get(k) != c[k]]
                     if diff:
                         if not orc.startswith("fail"):
